@@ -74,6 +74,7 @@ type memTarget struct {
 	got         []string // ids of non-probe requests received, in order
 	gotURI      map[string]string
 	gotReq      map[string]*capturedReq
+	lastReq     *capturedReq // the most recent non-probe request
 	handler     http.HandlerFunc // optional override for non-probe requests
 }
 
@@ -211,6 +212,7 @@ func (t *memTarget) ServeHTTP(w http.ResponseWriter, r *http.Request) {
 	t.got = append(t.got, id)
 	t.gotURI[id] = r.RequestURI
 	t.gotReq[id] = &capturedReq{method: r.Method, uri: r.RequestURI, host: r.Host, header: r.Header.Clone(), body: body}
+	t.lastReq = t.gotReq[id]
 	hold := t.hold
 	override := t.handler
 	var h *heldReq
